@@ -59,7 +59,7 @@ func coqPath(m map[string]string) string {
 func c15(args []string) int {
 	run := NewRun("C15", args)
 	r := run.R
-	run.Sum.Rule = "configurations: host sets of 0..7 hosts with partial, overlapping metadata over keys {k1,k2,k3} x values {a,b,c} (same values under different keys on purpose), some hosts unhealthy; selector lists incl. nested, duplicate, unsorted and EMPTY key sets; the three fallback policies; default subsets (empty, matching, non-matching). queries per configuration: nil criteria, empty criteria, every selector instantiated from a host (hit), with one value changed, strict subsets and supersets of selectors, unknown keys and values. A configuration is non-trivial when it has >= 2 hosts and >= 1 selector; distinct by (hosts, selectors, policy, default)."
+	run.Sum.Rule = "configurations: host sets of 0..7 hosts with partial, overlapping metadata over keys {k1,k2,k3} x values {a,b,c} (same values under different keys on purpose), some hosts unhealthy; selector lists incl. nested, duplicate, unsorted and EMPTY key sets, and (45 %) a pair of selectors one of whose sorted key lists is a prefix / suffix / subset of the other's, in both orders; the three fallback policies; default subsets (empty, matching, non-matching). queries per configuration: nil criteria, empty criteria, every selector instantiated from a host (hit), with one value changed, strict subsets and supersets of selectors, unknown keys and values. A configuration is non-trivial when it has >= 2 hosts and >= 1 selector; distinct by (hosts, selectors, policy, default)."
 	header := "From MV Require Import Model.Subset.\nFrom Coq Require Import List Arith.\nImport ListNotations.\n"
 	sh := run.NewShard(header, "ss_case", "ss_mismatches")
 	hostSeq := 0
@@ -112,6 +112,63 @@ func c15(args []string) int {
 				}
 			}
 			selectors = append(selectors, s)
+		}
+		// selectors whose sorted keys are a prefix / suffix / subset of another selector's, in both orders
+		if r.Pct(45) {
+			base := [][]string{{"k1", "k2"}, {"k1", "k3"}, {"k2", "k3"}, {"k1", "k2", "k3"}}[r.Intn(4)]
+			var derived []string
+			switch r.Intn(3) {
+			case 0:
+				derived = base[:1+r.Intn(len(base)-1)] // prefix
+			case 1:
+				derived = base[1+r.Intn(len(base)-1):] // suffix
+			default:
+				for _, k := range base { // subset
+					if r.Bool() {
+						derived = append(derived, k)
+					}
+				}
+				if len(derived) == 0 || len(derived) == len(base) {
+					derived = base[len(base)-1:]
+				}
+			}
+			b2 := append([]string{}, base...)
+			if r.Bool() { // configured unsorted
+				b2[0], b2[len(b2)-1] = b2[len(b2)-1], b2[0]
+			}
+			pair := [][]string{b2, append([]string{}, derived...)}
+			if r.Bool() {
+				pair[0], pair[1] = pair[1], pair[0]
+			}
+			at := 0
+			if len(selectors) > 0 {
+				at = r.Intn(len(selectors) + 1)
+			}
+			rest := append([][]string{}, selectors[at:]...)
+			selectors = append(append(selectors[:at:at], pair...), rest...)
+			run.Sum.Distribution["config:related-selectors"]++
+		}
+		// the configured key sets (sorted, distinct), independently of GenerateSubsetKeys
+		var cfgSets [][]string
+		for _, s := range selectors {
+			m := map[string]bool{}
+			var ks []string
+			for _, k := range s {
+				if !m[k] {
+					m[k] = true
+					ks = append(ks, k)
+				}
+			}
+			sort.Strings(ks)
+			dup := false
+			for _, o := range cfgSets {
+				if strings.Join(o, ",") == strings.Join(ks, ",") {
+					dup = true
+				}
+			}
+			if !dup {
+				cfgSets = append(cfgSets, ks)
+			}
 		}
 		pol := uint8(r.Intn(3))
 		dflt := map[string]string{}
@@ -175,8 +232,19 @@ func c15(args []string) int {
 		var crits []map[string]string
 		crits = append(crits, nil, map[string]string{})
 		subInfo := info.LbSubsetInfo()
-		for _, ks := range subInfo.SubsetKeys() {
-			keys := ks.Keys()
+		// the property itself on the configuration: every configured key set must survive the normalisation
+		for _, want := range cfgSets {
+			found := false
+			for _, ks := range subInfo.SubsetKeys() {
+				if strings.Join(ks.Keys(), ",") == strings.Join(want, ",") {
+					found = true
+				}
+			}
+			if !found {
+				run.Fail("subset:configured-selector-dropped", fmt.Sprintf("configured selectors %v: the selector with keys %v is missing from the subset keys the balancers are built from", selectors, want), confRep)
+			}
+		}
+		for _, keys := range cfgSets {
 			for rep := 0; rep < 2; rep++ {
 				c := map[string]string{}
 				if n > 0 && r.Pct(75) {
@@ -233,13 +301,20 @@ func c15(args []string) int {
 			crits = append(crits, c)
 		}
 		// ---- numbered configuration for the model
-		var selNums [][]int
+		var selNums, obsNums [][]int
+		for _, sel := range selectors {
+			var s []int
+			for _, k := range sel {
+				s = append(s, ssKeyNo(k))
+			}
+			selNums = append(selNums, s)
+		}
 		for _, ks := range subInfo.SubsetKeys() {
 			var s []int
 			for _, k := range ks.Keys() {
 				s = append(s, ssKeyNo(k))
 			}
-			selNums = append(selNums, s)
+			obsNums = append(obsNums, s)
 		}
 		dfltPairs := subInfo.DefaultSubset()
 		observe := func(lb types.LoadBalancer, c map[string]string) ssObs {
@@ -285,8 +360,8 @@ func c15(args []string) int {
 				}
 				sort.Strings(ck)
 				selExists := false
-				for _, ks := range subInfo.SubsetKeys() {
-					if len(ck) > 0 && strings.Join(ks.Keys(), ",") == strings.Join(ck, ",") {
+				for _, ks := range cfgSets { // judged on the CONFIGURED selectors, not on GenerateSubsetKeys's output
+					if len(ck) > 0 && strings.Join(ks, ",") == strings.Join(ck, ",") {
 						selExists = true
 					}
 				}
@@ -408,20 +483,23 @@ func c15(args []string) int {
 		for i := range hs {
 			hs[i] = "(" + hs[i] + ")"
 		}
-		var sels []string
-		for _, s := range selNums {
-			var ks []string
-			for _, k := range s {
-				ks = append(ks, fmt.Sprint(k))
+		numList := func(xs [][]int) string {
+			var out []string
+			for _, s := range xs {
+				var ks []string
+				for _, k := range s {
+					ks = append(ks, fmt.Sprint(k))
+				}
+				out = append(out, CoqList(ks))
 			}
-			sels = append(sels, CoqList(ks))
+			return CoqList(out)
 		}
 		var dps []string
 		for _, p := range dfltPairs {
 			dps = append(dps, fmt.Sprintf("(%d, %d)", ssKeyNo(p.T1), ssValNo(p.T2)))
 		}
 		polCoq := []string{"NoFallBack", "AnyEndPoint", "DefaultSubset"}[pol]
-		sh.Add(fmt.Sprintf("(%s, %s, %s, %s, %s)", CoqList(hs), CoqList(sels), polCoq, CoqList(dps), CoqList(qs)), confRep)
+		sh.Add(fmt.Sprintf("(%s, %s, %s, %s, %s, %s)", CoqList(hs), numList(selNums), numList(obsNums), polCoq, CoqList(dps), CoqList(qs)), confRep)
 		if sh.Len() >= 100 {
 			sh.Close()
 			sh = run.NewShard(sh.Header, sh.Typ, sh.Eval)
